@@ -16,7 +16,8 @@ import (
 // ---- C17: ReadHtml mirrors the HTML5 parse tree without namespaces ------------
 
 var c17Tokens = []string{"<p>", "</p>", "<b>", "</b>", "<br>", "<table>", "<td>", "<svg>", "</svg>", `<a x=1 xmlns:q="u" q:y=2 xmlns="d">`, "t", "<!--c-->", "</html>", "</body>",
-	"</table>", "<title>", "</a>", `<svg xmlns:xlink="l" xlink:href="h">`, `<i xmlnsfoo=1 xmlns-x=2 x:xmlns=3 XMLNS:Q=4>`}
+	"</table>", "<title>", "</a>", `<svg xmlns:xlink="l" xlink:href="h">`, `<i xmlnsfoo=1 xmlns-x=2 x:xmlns=3 XMLNS:Q=4>`,
+	"&amp;lt;&#38;amp;", "<script>a &lt; b &amp;&amp; c</script>", "<pre>\n&amp;amp;</pre>", `<a title="&amp;lt;" href='?a=1&amp;b=2'>`}
 
 // c17Expected is the independent oracle: a recursive walk of html.Parse's DOM.
 func c17Expected(text string) (*adoc.Doc, error) {
